@@ -10,6 +10,7 @@ theorem runPlain_end_indep (p : Prog) : ∀ j j' : List (String × Args), (runPl
   | discard k ih => intro j j'; simp only [runPlain]; exact ih j j'
   | force k ih => intro j j'; simp only [runPlain]; exact ih j j'
   | recordData key v k ih => intro j j'; simp only [runPlain]; exact ih j j'
+  | setEnabled b k ih => intro j j'; simp only [runPlain]; exact ih j j'
   | playData key k ih => intro j j'; simp only [runPlain]; exact ih _ j j'
   | callIn cfg args body k ihb ihk =>
     intro j j'
@@ -55,7 +56,8 @@ theorem exec_preserves' (Qi : InCfg → Args → Prog → Prop) (Qo : OutCfg →
     (hAI : ∀ (cfg : InCfg) args body k0 fb s o, Qi cfg args body → cfg.keys args = some (k0, fb) →
       bodyEnd body = .out o → P s → P (afterInput cfg args k0 s o))
     (hAO : ∀ (cfg : OutCfg) args body s s2 o, Qo cfg args body → P s → shouldIntercept s = true → P s2 →
-      P (afterOutput cfg.alias (cnt s.counter cfg.alias + 1) s2 o)) :
+      P (afterOutput cfg.alias (cnt s.counter cfg.alias + 1) s2 o))
+    (hE : ∀ s b, P s → P (doSetEnabled s b)) :
     ∀ (p : Prog), p.All Qi Qo → ∀ (s : St), P s → P (exec s p).1 := by
   intro p
   induction p with
@@ -63,6 +65,7 @@ theorem exec_preserves' (Qi : InCfg → Args → Prog → Prop) (Qo : OutCfg →
   | discard k ih => intro hq s h; rw [exec]; exact ih hq _ (hD s h)
   | force k ih => intro hq s h; rw [exec]; exact ih hq _ (hF s h)
   | recordData key v k ih => intro hq s h; rw [exec]; exact ih hq _ (hR s key v h)
+  | setEnabled b k ih => intro hq s h; rw [exec]; exact ih hq _ (hE s b h)
   | playData key k ih => intro hq s h; rw [exec]; exact ih _ (hq _) s h
   | callIn cfg args body k ihb ihk =>
     intro hq s h
